@@ -121,16 +121,24 @@ def run_item(item, tier):
     res["states"].add(explore.sig([rows0, hist.digest(tree0)]))
     snap = hist.snapshot(root, root + "-snap")
     variants = [(task, latest) for task in CLOSURE for latest in (False, True)]
-    for task, latest in variants:
+    variants = [(t, l, False) for t, l in variants] + [(t, l, True) for t, l in variants if l or t in ("//pkg/sub:e3", "//:e1")]
+    for task, latest, stale in variants:
         hist.restore_snapshot(snap, root)
-        art = {"history": item["history"], "task": task, "latest": latest}
+        art = {"history": item["history"], "task": task, "latest": latest, "stale_archive_index": stale}
+        if stale:
+            # what an earlier `cond archive` killed with SIGKILL while tar was running leaves behind: its temporary
+            # archive index (here: holding every row of the project) in cond-out
+            driver.make_index(os.path.join(root, "cond-out", "version_index_archive.sqlite"), [tuple(r) for r in rows0])
         arch = os.path.join(root, "A.tar.gz")
         argv = ["archive"] + ([task] if task else []) + (["--latest"] if latest else []) + ["-o", arch]
         res["evals"] += 1
         res["transitions"] += 1
         r = hist.run(root, argv, clock=driver.Clock(t + 1))
         want = ref_selection(rows0, task, latest)
-        res["sigs"].add(explore.sig([item["history"], task, latest]))
+        res["sigs"].add(explore.sig([item["history"], task, latest, stale]))
+        if os.path.exists(os.path.join(root, "cond-out", "version_index_archive.sqlite")):
+            viol("archive:temp-index-left", "cond archive left its temporary index in cond-out", art)
+            os.unlink(os.path.join(root, "cond-out", "version_index_archive.sqlite"))
         if r.exc is not None:
             viol("archive:internal-error", "cond %s dies with %s: %s" % (" ".join(argv[:-1]), type(r.exc).__name__, r.exc), art)
             continue
